@@ -377,6 +377,8 @@ class _Null(object):
     """build a stub object for the NULL singleton"""
     def __repr__(self):
         return "NULL"
+    def __reduce__(self): # pickle by reference, to remain a singleton
+        return "NULL"
 NULL = _Null()
 
 
